@@ -715,6 +715,12 @@ static Boolean LayoutDoubleWord(tStrComp const* pExpr, struct sLayoutCtx* pCtx) 
 
         TranslateString(erg.Contents.str.p_str, erg.Contents.str.len);
 
+        if (!pCtx->Put32I) {
+            /* only floating point values possible for this operand size */
+            WrStrErrorPos(ErrNum_FloatButString, pExpr);
+            LEAVE;
+        }
+
         for (z = 0; z < erg.Contents.str.len; z++) {
             if (!pCtx->Put32I((unsigned char)erg.Contents.str.p_str[z], pCtx)) {
                 LEAVE;
@@ -859,6 +865,12 @@ static Boolean LayoutQuadWord(tStrComp const* pExpr, struct sLayoutCtx* pCtx) {
         }
 
         TranslateString(erg.Contents.str.p_str, erg.Contents.str.len);
+
+        if (!pCtx->Put64I) {
+            /* only floating point values possible for this operand size */
+            WrStrErrorPos(ErrNum_FloatButString, pExpr);
+            LEAVE;
+        }
 
         for (z = 0; z < erg.Contents.str.len; z++) {
             if (!pCtx->Put64I((unsigned char)erg.Contents.str.p_str[z], pCtx)) {
